@@ -11,3 +11,6 @@ import ReuseVerif.Model.Precedence
 import ReuseVerif.Spec.Precedence
 import ReuseVerif.Model.Covered
 import ReuseVerif.Spec.Covered
+import ReuseVerif.Model.Fs
+import ReuseVerif.Model.AnnotateCmd
+import ReuseVerif.Model.Effects
